@@ -26,6 +26,7 @@ def main() -> int:
                 entered.add(fn[len("/repo/src/"):-3].replace("/", ".") + "." + co.co_qualname)
 
     failures = []
+    violated = []
     cases = 0
     corpus = list(mod.corpus()) if hasattr(mod, "corpus") else []
     sys.setprofile(prof)
@@ -35,7 +36,7 @@ def main() -> int:
             try:
                 ok = getattr(mod, fn_name)(**args, **cell)
                 if not ok:
-                    failures.append(f"{fn_name}{args!r} cell={cell!r} returned False on a pinned input")
+                    violated.append({"function": fn_name, "cell": cell, "args": args})
             except Skip:
                 failures.append(f"{fn_name}{args!r} cell={cell!r}: corpus input outside the harness precondition")
             except Exception:  # noqa: BLE001
@@ -44,7 +45,7 @@ def main() -> int:
         sys.setprofile(None)
     obs = mod.obligations(tier)
     out = {
-        "cases": cases, "failures": failures, "functions": sorted(entered), "obligations": obs,
+        "cases": cases, "failures": failures, "violated": violated, "functions": sorted(entered), "obligations": obs,
         "assumptions": list(getattr(mod, "ASSUMPTIONS", [])), "bounds": list(getattr(mod, "BOUNDS", {}).get(tier, [])) if isinstance(getattr(mod, "BOUNDS", None), dict) else list(getattr(mod, "BOUNDS", [])),
     }
     print("CORPUS-RESULT " + json.dumps(out))
